@@ -30,6 +30,9 @@ def _const_tensor(name, vals):
     return helper.make_tensor(name, TP.FLOAT, [len(vals)], vals)
 
 
+ALT_DEFAULTS = False  # set by make_model(alt_defaults=True): the same functions with other attribute defaults
+
+
 def functions():
     """Model-local functions: Scale(x; alpha=2.0) = x * alpha ; Twice(x) = Scale(x, alpha=3) + x ; NoDef(x; beta) = x * beta (no default)."""
     fs = []
@@ -38,7 +41,7 @@ def functions():
     n1.attribute.add().CopyFrom(ref)
     n2 = helper.make_node("Mul", ["fx", "fc"], ["fo"], name="scale_mul")
     f = helper.make_function("local", "Scale", ["fx"], ["fo"], [n1, n2], [helper.make_opsetid("", OPSET)], attributes=[],
-                             attribute_protos=[helper.make_attribute("alpha", 2.0)])
+                             attribute_protos=[helper.make_attribute("alpha", 5.0 if ALT_DEFAULTS else 2.0)])
     fs.append(f)
     c1 = helper.make_node("Scale", ["tx"], ["t1"], name="twice_call", domain="local", alpha=3.0)
     c2 = helper.make_node("Add", ["t1", "tx"], ["to"], name="twice_add")
@@ -55,7 +58,7 @@ def functions():
     g1 = helper.make_node("Scale", ["gx"], ["go"], name="fwd_call", domain="local")
     g1.attribute.add().CopyFrom(fref)
     fs.append(helper.make_function("local", "Fwd", ["gx"], ["go"], [g1], [helper.make_opsetid("", OPSET), helper.make_opsetid("local", 1)], attributes=[],
-                                   attribute_protos=[helper.make_attribute("gamma", 4.0)]))
+                                   attribute_protos=[helper.make_attribute("gamma", 0.5 if ALT_DEFAULTS else 4.0)]))
     # CondFn(cx, cc) = If(cc) {Scale(cx, alpha=0.5)} else {cx + cw}: a call and an initializer reachable only
     # through a control-flow body that lives inside a function
     tb = onnx.GraphProto(name="cond_then")
@@ -241,15 +244,16 @@ def make_node(form, idx):
     raise KeyError(kind)
 
 
-def make_model(forms, outputs, extra_unused_function=False, opset=None):
-    global OPSET
-    saved_opset = OPSET
+def make_model(forms, outputs, extra_unused_function=False, opset=None, alt_defaults=False):
+    global OPSET, ALT_DEFAULTS
+    saved_opset, saved_alt = OPSET, ALT_DEFAULTS
     if opset is not None:
         OPSET = opset
+    ALT_DEFAULTS = alt_defaults
     try:
         return _make_model(forms, outputs, extra_unused_function)
     finally:
-        OPSET = saved_opset
+        OPSET, ALT_DEFAULTS = saved_opset, saved_alt
 
 
 def _make_model(forms, outputs, extra_unused_function=False):
@@ -452,6 +456,17 @@ def special_models():
     gb.node.append(helper.make_node("If", ["c"], ["r"], name="if_keep", then_branch=tb, else_branch=eb))
     gb.output.append(helper.make_tensor_value_info("r", TP.FLOAT, ["R"]))
     out.append(("kept_identity_in_branch_over_captured_value", helper.make_model(gb, opset_imports=[helper.make_opsetid("", OPSET)], ir_version=10)))
+    # an initializer that is also a graph input (an overridable default) next to an ordinary initializer with the same
+    # bytes, in both declaration orders: callers may feed the former, never the latter
+    for order in (("ov", "k"), ("k", "ov")):
+        go = onnx.GraphProto(name="main")
+        go.input.extend([_vi("x"), _vi("c", TP.BOOL, ()), _vi("ov")])
+        for nm in order:
+            go.initializer.append(_const_tensor(nm, [1.0, 2.0]))
+        go.node.append(helper.make_node("Mul", ["x", "ov"], ["scaled"], name="use_overridable"))
+        go.node.append(helper.make_node("Add", ["scaled", "k"], ["y"], name="use_constant"))
+        go.output.append(_vi("y", TP.FLOAT, (2,)))
+        out.append((f"overridable_initializer_and_identical_constant[{order[0]}_first]", helper.make_model(go, opset_imports=[helper.make_opsetid("", OPSET)], ir_version=10)))
     g2 = onnx.GraphProto(name="main")
     g2.input.extend([_vi("x"), _vi("c", TP.BOOL, ())])
     g2.node.append(helper.make_node("Identity", ["x"], ["y"], name="id"))
@@ -468,10 +483,15 @@ def feeds_for(model):
     inits = {t.name for t in model.graph.initializer}
     # symbolic / unknown dims are fed with the length of the input vectors
     shapes = {i.name: [d.dim_value or 2 for d in i.type.tensor_type.shape.dim] for i in model.graph.input if i.name not in inits}
+    overridable = [i.name for i in model.graph.input if i.name in inits]
     out = []
     for xv in INPUT_VECTORS:
         for cv in (True, False):
             f = {}
+            if overridable and cv:
+                # the caller overrides the default value of an initializer that is also a graph input
+                for nm in overridable:
+                    f[nm] = np.array([7.0, -3.0], dtype=np.float32)
             for nm, shp in shapes.items():
                 if nm == "c":
                     f[nm] = np.array(cv)
